@@ -318,3 +318,53 @@ func verifHarness_C13_frame_after_empty_first_fragment() {
 	verifC13FrameAfterN(1+verifChoose("binary", 2), false, false, -1, false, 0)
 	verifAssert(false, "witness")
 }
+
+// UTF-8 validity is a property of the whole text message: a code point may be
+// split between fragments (RFC 6455 5.6, 8.1). Two or three fragments with
+// symbolic payloads, four bytes in all: delivered iff the concatenation is valid
+// UTF-8, otherwise the connection is failed and nothing is delivered.
+func verifHarness_C13_text_utf8_across_fragments() {
+	verifBound("message_bytes", 4)
+	verifBound("fragments", 3)
+	ep := verifNewEndpoint(false, false, 0, nil)
+	c := ep.c
+	total := 4
+	all := verifBytes("text", total)
+	// split points: 0 <= s1 <= s2 <= total; two fragments when s2 == total
+	s1 := verifChoose("split1", total+1)
+	s2 := s1 + verifChoose("split2", total-s1+1)
+	frame := func(op byte, fin bool, p []byte) []byte {
+		b0 := op
+		if fin {
+			b0 |= 0x80
+		}
+		return append([]byte{b0, byte(len(p))}, p...)
+	}
+	var frames [][]byte
+	frames = append(frames, frame(byte(TextMessage), false, all[:s1]))
+	if s2 < total {
+		frames = append(frames, frame(0, false, all[s1:s2]))
+		frames = append(frames, frame(0, true, all[s2:]))
+	} else {
+		frames = append(frames, frame(0, true, all[s1:]))
+	}
+	failed := false
+	for _, f := range frames {
+		err := c.Parse(f)
+		if verifProtocolFailure(ep, err) {
+			failed = true
+			break
+		}
+	}
+	valid := verifUtf8Valid(all)
+	verifAssertD(verifImplies(valid, !failed), "accepts-what-rfc-allows", "utf8-split-across-fragments")
+	verifAssertD(verifImplies(!valid, failed), "rejects-what-rfc-forbids", "invalid-utf8-text/fragmented")
+	if failed {
+		verifAssertD(len(ep.msgs) == 0, "no-delivery-of-offending-frame", "utf8")
+		verifReach("rejected")
+	} else {
+		verifAssertD(len(ep.msgs) == 1 && len(ep.msgs[0].data) == total && verifEqBytes(ep.msgs[0].data, all), "valid-text-delivered", "fragmented")
+		verifReach("delivered")
+	}
+	verifAssert(false, "witness")
+}
